@@ -13,8 +13,9 @@ LEVEL_TEXT = ("Theorems for all values: an Rread frame is 11 + min(count, msize-
               "entries within min(count, msize-11) <= msize; the client's messageSize is min(own, announced) (refused <= 153), payloadSize <= msize-153, every chunk <= payloadSize so "
               "every Twrite (23+chunk), Tread (23) and its reply (11+n, n <= count) and every Treaddir with its fullest reply fit. Every run re-checks the proofs and compares the model "
               "and the property with the sizes observed on the real server and client.")
-LEVEL_NOTE = ("Trusted: Coq kernel + vm_compute; the hand model Frame/Sizes.v (tied by the differential only); ConstGen; largestFixedSize (153, duplicated by hand in Frame/Sizes.v and Fs/Version.v) and the fixed "
-              "frame overheads are compared with the Go values on every run. 'The msize it announced' is read as the msize of the LAST Rversion that announced one on the connection (an 'unknown' Rversion carries 0 and "
+LEVEL_NOTE = ("Trusted: Coq kernel + vm_compute; the hand model Frame/Sizes.v (tied by the differential only); ConstGen; CodecGen (layouts). largestFixedSize is RECOMPUTED in Coq (Frame/SizesGen.v: max over all registered types of FixedSize() / encoded length of the zero value, from the layouts "
+              "go2coq reads off messages.go) and proved equal to the 153 the client model uses (C13_largest_fixed_size), with header + fixed part of every payloader below it (C13_largest_covers_payloaders; the payloaders-only maximum 16 is refuted); "
+              "registry.register()'s own max loop is not read by a generator: the value the running registry holds and the fixed frame overheads are compared with the Coq values on every run (case `consts`). 'The msize it announced' is read as the msize of the LAST Rversion that announced one on the connection (an 'unknown' Rversion carries 0 and "
               "changes nothing): C13_session_msize / C13_session are theorems over Tversion histories and the harness replays 2-3 Tversions per connection. `agrees` demands the exact clamps (msize-11, roundDown(msize-153,512)): "
               "a behaviour-preserving change of a clamp is reported as a model mismatch by design. Timeouts: a request unanswered for 15 s is retried on up to two fresh connections and a client call caught by the 10 s watchdog is "
               "repeated up to three times; only a stall confirmed three times is reported, and then as a model mismatch (the model says the call returns), never as an msize violation. "
@@ -28,7 +29,7 @@ ASSUMPTIONS = [
 TRUSTED_BASE = [
     "Coq 8.16.1 kernel, vm_compute (cases evaluation); no native_compute",
     "axioms: none (Print Assumptions: closed under the global context for every property theorem)",
-    "go2coq ConstGen (headerLength, maximumLength, msg numbers)",
+    "go2coq ConstGen (headerLength, maximumLength, msg numbers); CodecGen (message layouts, FixedSize values: largestFixedSize is recomputed from them)",
     "hand-written model Frame/Sizes.v, tied by harness/p9/c13_sizes_test.go + Frame/SizesCases.v",
 ]
 
